@@ -335,6 +335,7 @@ class Run:
         self.peer = None
         body = S.peer_open_body(asn=PEER_AS, hold=180, families=fams, asn4=True)
         self.open = ('msg', 1, body)
+        self.early_fams = None    # families the remote offers in its OPEN of every attempt but the last (None: the same)
 
     # ---- remote speaker
     def new_session(self):
@@ -356,6 +357,10 @@ class Run:
             if sess.cut == 'open-eof':
                 sess.cut_done = 'open-eof'
                 return ('eof',)
+            if self.early_fams is not None and sess.n < len(self.plan) - 1:
+                # an earlier attempt: the remote offers fewer families than the last (judged) one will
+                self.ctx.cover('earlier-session-negotiated-fewer-families')
+                return ('msg', 1, S.peer_open_body(asn=PEER_AS, hold=180, families=self.early_fams, asn4=True))
             return self.open
         if sess.reads == 2:
             if sess.cut == 'ka-eof':
@@ -576,7 +581,7 @@ def h_resync(ctx, *a, **k):
 
 
 def _h_resync(ctx, fams, aro, cuts, n_up, n_down, up_kinds, down_kinds, losses=1, dom=3, jmax=5, up_at=('start', 'mid', 'idle'),
-              first_up=None, first_down=None, later_cuts=None, rate=False, n_up_later=None, later_down_kinds=None):
+              first_up=None, first_down=None, later_cuts=None, rate=False, n_up_later=None, later_down_kinds=None, early_fams=None):
     fams = tuple(fams)
     nb, cfg, pool = shape(fams, aro, rate)
     # ---- configured routes: symbolic prefixes, the parsed attributes
@@ -622,6 +627,7 @@ def _h_resync(ctx, fams, aro, cuts, n_up, n_down, up_kinds, down_kinds, losses=1
     plan.append(('none', None))
 
     run = Run(ctx, nb, cfg, pool, fams, plan, ops_up, ops_down, dom)
+    run.early_fams = early_fams
     for (fam, sel, p), r in zip(configured, routes):
         run.intent.op((fam, p), sel, r, 'config', 0)
         run.route_epoch[id(r)] = 0
@@ -820,6 +826,11 @@ def units(tier):
                  up_kinds=(), down_kinds=none46, weight=5))
     us.append(_u('resync/kept/v46/live/u1d1', ('cut:write', 'cut-inside-a-batch', 'routes-then-eor'), fams=(V4, V6), aro=True, cuts=LIVE_CUTS,
                  n_up=1, n_down=1, jmax=6, up_kinds=('none', 'announce:y6', 'withdraw6', 'withdraw'), down_kinds=none46, up_at=('mid', 'idle'), weight=100))
+    # the sessions of one neighbor need not negotiate the same families: the lost one had ipv4 only (the remote offered no ipv6),
+    # the next one has both; what is in the Adj-RIB-Out for ipv6 (configured, or announced through the API meanwhile) goes out then
+    us.append(_u('resync/kept/v46/fewer-families-first', ('earlier-session-negotiated-fewer-families', 'routes-then-eor'), fams=(V4, V6), aro=True,
+                 early_fams=(V4,), cuts=('write', 'idle-eof', 'ka-eof'), n_up=1, n_down=1, jmax=3,
+                 up_kinds=('none', 'announce:y6', 'withdraw6', 'announce:y'), down_kinds=none46, up_at=('mid', 'idle'), weight=60))
     # rate-limited neighbor: one message per loop iteration, so the remote end can close (seen at the next read) while the
     # update generator is partially consumed, and operations arrive between two messages of one batch
     us.append(_u('resync/kept/v4/rate/u1d1', ('cut:read', 'cut:write', 'remote-closes-while-generator-live', 'operation-while-first-batch-in-flight'),
